@@ -41,7 +41,7 @@ type CEvent struct {
 	Ch       *VChan
 	Val      Value
 	Ok       *Term
-	CR       *Term // recv: "closed and drained" alternative
+	CR       *Term             // recv: "closed and drained" alternative
 	M        map[*CEvent]*Term // recv: match variable per candidate send
 	WG       string
 	N        *Term
@@ -56,12 +56,12 @@ type VChanC struct {
 }
 
 type ConcEnv struct {
-	Threads []*CThread
-	Events  []*CEvent
-	Cur     *CThread
-	nsel    int
-	Stores  map[string][]*CEvent
-	Final   bool
+	Threads  []*CThread
+	Events   []*CEvent
+	Cur      *CThread
+	nsel     int
+	Stores   map[string][]*CEvent
+	Final    bool
 	Deadlock *Term
 	Race     *Term
 	Panics   []Obligation
